@@ -172,6 +172,18 @@ Proof.
 Qed.
 Print Assumptions C16_grid_neighbors_adjacent_generic.
 
+(* the Grid topology is an undirected graph in every dimension *)
+Theorem C16_grid_neighbors_sym_generic : forall dims v u,
+  Forall (fun s => 0 < s)%nat dims -> (v < grid_len dims)%nat -> In u (grid_neighbors dims v) ->
+  (u < grid_len dims)%nat /\ In v (grid_neighbors dims u).
+Proof. exact grid_neighbors_sym_generic. Qed.
+Print Assumptions C16_grid_neighbors_sym_generic.
+
+Theorem C16_grid_neighbors_nodup_generic : forall dims v,
+  Forall (fun s => 0 < s)%nat dims -> (v < grid_len dims)%nat -> NoDup (grid_neighbors dims v).
+Proof. exact grid_neighbors_nodup_generic. Qed.
+Print Assumptions C16_grid_neighbors_nodup_generic.
+
 (* u is yielded by neighbors(v) iff u is a cell whose position differs from v's by exactly
    one on exactly one axis ([adjacent_pos]) *)
 Theorem C16_grid_neighbors_spec_2d : forall w h v u,
